@@ -472,6 +472,11 @@ def check_misuse(X, cls, obj, buf, want, ctx, rnd, P):
         if r > 1 and all(s > 0 for s in shape):
             expect_error(f"index-rank-too-small:{dyn}items:{r}d", lambda: obj[(0,) * (r - 1)], index=(0,) * (r - 1))
             expect_error(f"index-rank-too-large:{dyn}items:{r}d", lambda: obj[(0,) * (r + 1)], index=(0,) * (r + 1))
+        if X.scalar.is_scalar(cls._itemtype) and all(s > 0 for s in shape):
+            # an array value of higher rank whose leading extents agree with the array's shape: more items than the array has room for
+            hi = np.zeros(shape + (3,), dtype=cls._itemtype._dtype)
+            expect_error(f"update-ndarray-of-higher-rank:{r}d", lambda: obj._update(hi), value_shape=hi.shape)
+            expect_error(f"construct-from-ndarray-of-higher-rank:{r}d", lambda: cls(hi, _buffer=buf), value_shape=hi.shape)
         if r == 1:
             item = want[0] if len(want) else None
             longer = list(want) + [want[0]] if len(want) else None
@@ -673,6 +678,56 @@ def check_refs(X, sl, rnd, P):
                     P.add("C08", "target-not-live", field=name, **ctx)
 
 
+def check_union_families(X, sl, rnd, P):
+    """C08 (and C01/C05 through the recorded member index): union types that share member types at different positions -- a reversed
+    member list, a derived union that prepends a member -- used one after the other in one process, members bound by (name, data), by
+    an existing object of the same buffer and by a foreign object: the reference resolves to an object of the type that was bound, at
+    the bound object's offset when it was an existing one, and the recorded member index is the position in *that* union's list"""
+    S1, S2, S4 = sl.S1, sl.S2, sl.S4
+    vals = {S1: {"a": 3, "b": 1.5, "c": 2, "d": 9}, S2: sl.value(S2, rnd), S4: sl.value(S4, rnd)}
+    scenarios = []
+    for rep, (first_shared, how) in enumerate([(a, b) for a in (True, False) for b in ("existing", "name-data", "foreign")]):
+        # fresh union classes per scenario (what a process has already done with a class must not hide anything): base, reversed, derived
+        t = grammar.uniq("UF")
+        UA = X.ref.MetaUnionRef(f"{t}A", (X.UnionRef,), {"_reftypes": [S1, S2]})
+        UB = X.ref.MetaUnionRef(f"{t}B", (X.UnionRef,), {"_reftypes": [S2, S1]})
+        UC = X.ref.MetaUnionRef(f"{t}C", (UA,), {"_reftypes": [S4] + list(UA._reftypes)})
+        for UT in (UA, UB, UC):
+            ms = list(UT._reftypes)
+            scenarios.append((rep, how, UT, list(reversed(ms)) if first_shared else ms))
+    for rep, how, UT, members in scenarios:
+        if True:
+            if True:
+                for M in members:
+                    buf = X.ContextCpu().new_buffer(64)
+                    buf.allocate(8)
+                    ctx = dict(union=UT.__name__, members=[m.__name__ for m in UT._reftypes], member=M.__name__, how=how, rep=rep)
+                    try:
+                        if how == "existing":
+                            m = M(**vals[M], _buffer=buf)
+                            u = UT(m, _buffer=buf)
+                        elif how == "foreign":
+                            m = M(**vals[M])
+                            u = UT(m, _buffer=buf)
+                        else:
+                            m = None
+                            u = UT(M.__name__, vals[M], _buffer=buf)
+                        P.evals += 1
+                        t = u.get()
+                        want_id = [x.__name__ for x in UT._reftypes].index(M.__name__)
+                        got_id = int(np.frombuffer(bytes(image(buf)[u._offset + 8:u._offset + 16]), dtype="int64")[0])
+                        if t is None or type(t).__name__ != M.__name__ or not eq(plain(X, t), norm(X, M, vals[M])):
+                            P.add("C08", f"union-family:{how}:resolves-to-other-type-or-value", resolved=type(t).__name__, **ctx)
+                            P.add("C01", f"union-family:{how}:readback", resolved=type(t).__name__, **ctx)
+                        if got_id != want_id:
+                            P.add("C08", f"union-family:{how}:recorded-member-index", recorded=got_id, expected=want_id, **ctx)
+                            P.add("C05", f"union-family:{how}:recorded-member-index", recorded=got_id, expected=want_id, **ctx)
+                        if how == "existing" and t is not None and t._offset != m._offset:
+                            P.add("C08", "union-family:existing:not-aliased", **ctx)
+                    except Exception as e:  # noqa
+                        P.add("C08", f"union-family:{how}:raised:{type(e).__name__}", problem=str(e)[:200], **ctx)
+
+
 def check_copy(X, cls, val, rnd, P):
     """C09 copy-construction in the same buffer, another buffer, another context"""
     tk = type_key(X, cls)
@@ -812,6 +867,7 @@ def run_all(tier, seed):
         except LayoutError as e:
             P.add("C05", "layout:String:capacity", problem=str(e))
     check_refs(X, sl, rnd, P)
+    check_union_families(X, sl, rnd, P)
     # contract of iter_index assumed by the array writer proofs
     from . import axioms_native
 
